@@ -18,7 +18,10 @@ RULE = ("cases: (a) ser.todict — a generated dataclass tree over the C05 gramm
         "the opposite insertion order; observed: the real to_dict output (every node's type), id()-based alias pairs between input "
         "and output, json.dumps / yaml.safe_dump acceptance, mutation probes on every mutable node of output and input; "
         "(b) ser.decode — from_dict on the expected plain dict of the same instance (+ extra keys): argument unchanged, no aliasing, "
-        "decoding hooks applied, hidden fields from defaults. Non-trivial = class with >= 2 fields or nested/container field and at "
+        "decoding hooks applied, hidden fields from defaults; (c) ser.typed — classes from a generated real source module, the dict "
+        "written by to_dict(save_dc_types=True) (`_type_` entries at top level and in nested instances) given to from_dict twice: "
+        "argument deep-equal to its copy after each call, both results equal, no aliasing (real code + oracle only). Fields may carry "
+        "to_dict=False and an encoding_fn at the same time. Non-trivial = class with >= 2 fields or nested/container field and at "
         "least one marked field or container; distinct by canonical JSON.")
 ASSUMPTIONS = [
     "json.dumps / yaml.safe_dump are the acceptance tests named by the property",
@@ -127,6 +130,12 @@ def gen(rng, tier):
         if i % 2 == 0 and not B._has_tuple_key(T):
             extra = rng.random() < 0.3
             yield {"op": "ser.decode", "case": {"kind": "purity", "ty": pair_hooks(T), "x": x, "extra": extra}}
+    # dicts that carry `_type_` entries (to_dict(save_dc_types=True)), classes living in a real generated module
+    for _ in range(90 if quick else 2000):
+        T, x, src = B.gen_src_case(rng, rng.choice([0, 1, 1, 2, 2]))
+        if B._has_tuple_key(T):
+            continue
+        yield {"op": "ser.typed", "model": False, "case": {"ty": T, "x": x, "src": src}}
     # sets whose iteration order depends on insertion order (hash collisions modulo the table size)
     for elems in ([0, 8], [8, 16, 0], [1, 9], [0, 8, 16, 24, 32]) if not quick else ([0, 8], [8, 16, 0]):
         T = B.T_("dc", cls="K1", base="Serializable", reg=True, fields=[
@@ -227,7 +236,53 @@ def _run(fn):
         return {"o": "raise", "exc": type(e).__name__}, None
 
 
+def count_type_keys(d):
+    if isinstance(d, dict):
+        return int("_type_" in d) + sum(count_type_keys(v) for v in d.values())
+    if isinstance(d, (list, tuple)):
+        return sum(count_type_keys(v) for v in d)
+    return 0
+
+
+def _impl_typed(c, b):
+    """from_dict on a dict written with save_dc_types=True: argument untouched, loading twice gives the same."""
+    from simple_parsing.helpers.serialization import serializable as S
+
+    cls = b.ty(c["ty"])
+    x = b.val(c["x"])
+    o0, d = _run(lambda: S.to_dict(x, save_dc_types=True))
+    if o0["o"] != "ok":
+        return {"out": o0, "stage": "to_dict"}
+    snap = copy.deepcopy(d)
+    obs = {"n_type_keys": count_type_keys(d), "stage": "from_dict"}
+    o1, r1 = _run(lambda: S.from_dict(cls, d))
+    obs["unchanged_1"] = d == snap and count_type_keys(d) == obs["n_type_keys"]
+    o2, r2 = _run(lambda: S.from_dict(cls, d))
+    obs["unchanged_2"] = d == snap and count_type_keys(d) == obs["n_type_keys"]
+    obs["out"] = dict(o1, v=cv(r1, norm=True)) if o1["o"] == "ok" else o1
+    obs["out2"] = dict(o2, v=cv(r2, norm=True)) if o2["o"] == "ok" else o2
+    obs["same_twice"] = bool(o1 == o2 and (o1["o"] != "ok" or (r1 == r2 and type(r1) is type(r2))))
+    if o1["o"] == "ok":
+        ids = {id(n): p for p, n in mutable_nodes(d)}
+        obs["alias"] = [{"out": p, "in": ids[id(n)]} for p, n in mutable_nodes(r1) if id(n) in ids][:20]
+        for _, node in mutable_nodes(r1):
+            poke(node)
+        obs["probe_out"] = d == snap
+    return obs
+
+
 def impl(case):
+    if case["op"] == "ser.typed":
+        import tempfile
+        import os
+
+        c = case["case"]
+        with tempfile.TemporaryDirectory(prefix=f"spverif.{os.getpid()}.src.") as tmp:
+            b = B.SrcBuilt(c["ty"], c["src"], tmp)
+            try:
+                return json.loads(json.dumps(_impl_typed(c, b)))
+            finally:
+                b.close()
     b = Built()
     obs = _impl(case, b)
     return json.loads(json.dumps(obs).replace(b.suffix, ""))
@@ -324,6 +379,19 @@ def oracle(case, obs):
     op, c = case["op"], case["case"]
     fails = []
     T = c["ty"]
+    if op == "ser.typed":
+        if obs.get("stage") == "to_dict":
+            return [{"clause": "to_dict-raises", "detail": f"to_dict(save_dc_types=True) raised {obs['out'].get('exc')}"}]
+        if not obs["unchanged_1"] or not obs["unchanged_2"] or not obs.get("probe_out", True):
+            fails.append({"clause": "from_dict-pure", "detail": f"from_dict changed its argument (a dict with {obs['n_type_keys']} _type_ "
+                          f"entries): equal to its deep copy after 1st call={obs['unchanged_1']}, after 2nd={obs['unchanged_2']}, "
+                          f"after mutating the result={obs.get('probe_out')}"})
+        if not obs["same_twice"]:
+            fails.append({"clause": "from_dict-repeatable", "detail": f"loading the same dict twice gave {B.canon_short(obs['out'])} then "
+                                                                       f"{B.canon_short(obs['out2'])}"})
+        if obs.get("alias"):
+            fails.append({"clause": "from_dict-no-aliasing", "detail": f"result shares {obs['alias'][:3]} with the argument"})
+        return fails
     if op == "ser.todict":
         if obs["out"]["o"] != "ok":
             return [{"clause": "to_dict-raises", "detail": f"to_dict raised {obs['out'].get('exc')}"}]
@@ -375,6 +443,8 @@ def n_marked(T):
 
 def nontrivial(case, obs):
     T = case["case"]["ty"]
+    if case["op"] == "ser.typed":
+        return obs.get("n_type_keys", 0) >= 1 and obs["out"]["o"] == "ok"
     return (len(T["fields"]) >= 2 or type_depth(T) >= 2) and (n_marked(T) >= 1 or type_depth(T) >= 2)
 
 
@@ -383,6 +453,8 @@ def tags(case, obs):
     t = [f"op:{case['op']}", f"marked:{min(n_marked(T), 4)}", f"depth:{type_depth(T)}"]
     t += [f"kind:{k}" for k in sorted(type_kinds(T))]
     t.append("out:" + (obs["out"]["o"] if obs["out"]["o"] == "ok" else "raise:" + str(obs["out"].get("exc"))))
+    if case["op"] == "ser.typed":
+        t.append(f"type-keys:{min(obs.get('n_type_keys', 0), 3)}")
     if case["op"] == "ser.todict" and obs["out"]["o"] == "ok":
         t.append(f"mutable-out:{min(len(obs.get('alias', [])), 3)}alias")
         t.append("rev-equal" if obs["rev_equal"] else "rev-differs")
